@@ -35,7 +35,11 @@ def relent(x, y, elementwise=False):
     else:
         x = x.ravel()
         y = y.ravel()
-        d = dict((RelEnt(x[i], y[i]), 1) for i in range(x.size))
+        d = dict()
+        for i in range(x.size):
+            atom = RelEnt(x[i], y[i])
+            # equal arguments give equal atoms; their coefficients add up
+            d[atom] = d.get(atom, 0) + 1
         return ScalarExpression(d, 0).as_expr()
 
 
